@@ -32,6 +32,8 @@ func C09(r *core.Run) {
 	emptyArrayForm(r)
 	renderedTextOpaque(r)
 	inlineCommentKind(r)
+	statementsRenderSomething(r)
+	descriptionWordsBySpace(r)
 }
 
 // C11 — BCL parser is total and every diagnostic points inside the file.
